@@ -1199,6 +1199,13 @@ func (e *Env) segDigest(h *segH, withBytes bool) string {
 	}
 	sub.doObserve(&Op{Op: "observe", Seg: 1, Level: "full"})
 	if withBytes {
+		// the segment-level accessors belong to the observation too (C15): CRC, counts, offsets, size
+		if crc, nd, cm, ver, ok := h.impl.Footer(h.seg); ok {
+			fmt.Fprintf(hs, "footer:%08x:%d:%d:%d:", crc, nd, cm, ver)
+		}
+		if x, ok := h.seg.(*ice.Segment); ok {
+			fmt.Fprintf(hs, "offs:%d:%d:%d:size:%d:", x.FieldsIndexOffset(), x.StoredIndexOffset(), x.DocValueOffset(), x.Size())
+		}
 		var buf bytes.Buffer
 		cl := runRecover(func() { h.seg.WriteTo(&buf, nil) })
 		fmt.Fprintf(hs, "bytes:%s:%s", cl, digest(buf.Bytes()))
